@@ -213,7 +213,6 @@ package fs
 //@ func NewFilesystem
 //@   props C01,C07,C15
 //@   taggedonly
-//@   requires forall j int :: 0 <= j && j < len(opts) ==> opts[j] != nil
 //@   ensures[C07] err == nil ==> resolverOpq == fsOpts.overlayOpaqueType
 //@   ensures[C01] err == nil ==> as(result0, "*filesystem").disableVerification == cfg.DisableVerification && as(result0, "*filesystem").allowNoVerification == cfg.AllowNoVerification
 //@   ensures[C15] err == nil ==> as(result0, "*filesystem").noprefetch == cfg.NoPrefetch && as(result0, "*filesystem").noBackgroundFetch == cfg.NoBackgroundFetch && as(result0, "*filesystem").prefetchSize == cfg.PrefetchSize
